@@ -57,6 +57,11 @@ structure St where
   modes : List (String × Int) := []
   lastModeChange : Int := 0
   lastRestart : Int := 0
+  limit : Nat := 0                      -- MaxNumberOfAggregationGroups, 0 = none
+  pendingDestroyed : List String := []  -- destroyed groups still mapped (until maintenance or re-creation)
+  maintBase : Int := 0                  -- start of the dispatcher's maintenance ticker
+  lastT : Int := 0
+  limitedAt : List (Nat × Int) := []    -- alerts refused a group by the limit (id, instant)
 
 def groupOf (id : Nat) : String := if id ≤ 2 then "a" else "b"
 def keyOf (g : String) (i : Nat) : String := "{}:{g=\"" ++ g ++ "\"}" ++ s!":r/fake/{i}"
@@ -106,7 +111,9 @@ def parseEntry3 (k : String) (s : String) : Option Entry :=
 
 def timeoutOf (σ : St) : Int := if σ.gi < 10000000000 then 10000000000 else σ.gi
 
-def step (σ : St) (op obs : List String) : St × List Msg :=
+def maintPeriod : Int := 15000000000
+
+def step0 (σ : St) (op obs : List String) : St × List Msg :=
   match op, obs with
   | ["post", now, id, _start, _end], [s, e, u] =>
     let now := toInt! now; let id := toNat! id
@@ -119,8 +126,16 @@ def step (σ : St) (op obs : List String) : St × List Msg :=
       | some g' => (setG σ g { gs with g := g' }, [.tag (if gs.inflight.isSome then "post:during-flush" else "post:existing")]
                       ++ (if a.resolvedAt now then [.tag "post:resolved"] else []))
       | none => (setG σ g { g := create now σ.gw a, created := now }, [.tag "post:recreate"])
-    | none => (setG σ g { g := create now σ.gw a, created := now },
-                [.tag (if a.starts + σ.gw < now then "post:create-old" else "post:create")])
+    | none =>
+      -- groupAlert: the counter follows the map (live groups + destroyed ones not yet collected); a destroyed
+      -- group still mapped is replaced in place (CompareAndSwap) without touching the counter
+      let count := σ.groups.length + σ.pendingDestroyed.length
+      if σ.limit > 0 ∧ count ≥ σ.limit then
+        ({ σ with limitedAt := (id, now) :: σ.limitedAt }, [.tag "post:limited"])
+      else
+        let σ' := { σ with pendingDestroyed := σ.pendingDestroyed.filter (· ≠ g) }
+        (setG σ' g { g := create now σ.gw a, created := now },
+          [.tag (if σ.pendingDestroyed.contains g then "post:recreate-cas" else if a.starts + σ.gw < now then "post:create-old" else "post:create")])
   | ["post", _, _, _, _], ["notstored"] => (σ, [.diff "post" "stored" "notstored"])
   | ["adv", _], _ => (σ, [])
   | ["sil", now, id, dur], ["ok"] =>
@@ -157,7 +172,7 @@ def step (σ : St) (op obs : List String) : St × List Msg :=
         (acc.filter (·.1 ≠ g)) ++ [(g, gs')]
       | none => acc ++ [(g, { g := { alerts := [(a.id, a)], destroyed := false, nextTick := now + σ.gw },
                               altTick := if old then some now else none, created := now })]) []
-    ({ σ with groups := groups, lastRestart := now }, [.tag "restart"])
+    ({ σ with groups := groups, lastRestart := now, pendingDestroyed := [], maintBase := now }, [.tag "restart"])
   | ["groups", now], [dmp] =>
     let now := toInt! now
     let w := (if σ.gw < σ.gi then σ.gi else σ.gw) + 11000000000
@@ -299,16 +314,32 @@ def step (σ : St) (op obs : List String) : St × List Msg :=
           ++ (if res = "ok" ∧ fl.snap.any (fun a => match lookup gs.g.alerts a.id with | some c => c.upd ≠ a.upd | none => false)
               then [Msg.tag "end:refire-survived"] else [])
           ++ (if res ≠ "ok" then [Msg.tag "end:failed"] else [])
-        let σ2 := if g1.destroyed then delG σ1 g
+        let σ2 := if g1.destroyed then { delG σ1 g with pendingDestroyed := g :: σ1.pendingDestroyed }
                   else setG σ1 g { gs with g := g1, inflight := none, lastEnd := wall, lastEntries := ents }
         (σ2, msgs ++ mEnt ++ pfLog ++ mRes ++ pfDeadline ++ tags ++ (if g1.destroyed then [.tag "end:destroyed"] else []))
   | _, _ => (σ, [.diff "parse" "?" (" ".intercalate op)])
+
+/-- every line carries its instant; the dispatcher's maintenance (every 15 s from its start) removes the
+    destroyed groups that are still mapped -/
+def lineTime (op : List String) : Option Int :=
+  match op with
+  | "ev" :: _ :: t :: _ => t.toInt?
+  | _ :: t :: _ => t.toInt?
+  | _ => none
+
+def step (σ : St) (op obs : List String) : St × List Msg :=
+  let σ1 := match lineTime op with
+    | some t =>
+      let crossed := (t - σ.maintBase) / maintPeriod > (σ.lastT - σ.maintBase) / maintPeriod
+      { σ with pendingDestroyed := if crossed then [] else σ.pendingDestroyed, lastT := if t > σ.lastT then t else σ.lastT }
+    | none => σ
+  step0 σ1 op obs
 
 def engine : Engine St where
   init hdr :=
     let srs := ((kv hdr "sr").getD "").toList.map (fun ch => ch == '1')
     { gw := kvInt hdr "gw" 0, gi := kvInt hdr "gi" 0, repeatI := kvInt hdr "repeat" 0,
-      retention := kvInt hdr "retention" 0, srs, modes := srs.map fun _ => ("ok", 0) }
+      retention := kvInt hdr "retention" 0, srs, modes := srs.map fun _ => ("ok", 0), limit := kvNat hdr "limit" 0 }
   step := step
 
 end Driver.Sys
